@@ -415,12 +415,15 @@ Definition tract_ok (t : tract) : Prop := t_version t < two32.
 Definition blobs_ok (d : dstate) : Prop := forall id b, aget id (d_blobs d) = Some b -> Forall tract_ok (b_tracts b).
 
 (* how the version of tract m of blob id may change: not at all; +1 (as uint32) by the ChangeTract that names it and
-   requires exactly that; or by a CommitRSChunk (finding F6: it stores NewVersion unchecked) *)
+   requires exactly that; or to NewVersion by a CommitRSChunk entry naming it, which (repair of F6) is stored version + 1
+   unless the entry carries NewVersion < 2 ("no version": not checked by the command) *)
 Definition vrel (c : cmd) (id : N) (m : nat) (t t' : tract) : Prop :=
   t_version t' = t_version t
   \/ (exists idx ver hosts, c = CChangeTract id idx ver hosts /\ N.to_nat idx = m /\ ver = t_version t + 1
                             /\ t_version t' = u32 (t_version t + 1))
-  \/ (exists cid cls hosts data, c = CCommitRS cid cls hosts data).
+  \/ (exists cid cls hosts data e, c = CCommitRS cid cls hosts data /\ In e (concat data)
+        /\ et_blob e = id /\ N.to_nat (et_idx e) = m /\ t_version t' = u32 (et_newver e)
+        /\ (et_newver e < 2 \/ et_newver e = t_version t + 1)).
 
 (* how the holders of an existing tract may change: kept (possibly re-packed), cleared by UpdateStorageClass, or
    replaced by the ChangeTract naming the tract with a list of the same length *)
@@ -571,8 +574,28 @@ Definition same_shape (b0 bw : blob) : Prop :=
   length (b_tracts bw) = length (b_tracts b0) /\ b_repl bw = b_repl b0 /\
   forall m t0 tw, nth_error (b_tracts b0) m = Some t0 -> nth_error (b_tracts bw) m = Some tw -> t_hosts tw = t_hosts t0.
 
-Definition upd_ok (d : dstate) (upd : amap blob) : Prop :=
-  forall k bw, In (k, bw) upd -> exists b0, live_blob d k = Some b0 /\ same_shape b0 bw.
+Definition vtrack (all : list enc_tract) (k : N) (b0 bw : blob) : Prop :=
+  forall m t0 tw, nth_error (b_tracts b0) m = Some t0 -> nth_error (b_tracts bw) m = Some tw ->
+    t_version tw = t_version t0
+    \/ exists e, In e all /\ et_blob e = k /\ N.to_nat (et_idx e) = m /\ t_version tw = et_newver e.
+
+Definition upd_ok (all : list enc_tract) (d : dstate) (upd : amap blob) : Prop :=
+  forall k bw, In (k, bw) upd -> exists b0, live_blob d k = Some b0 /\ same_shape b0 bw /\ vtrack all k b0 bw.
+
+Lemma vtrack_refl : forall all k b, vtrack all k b b.
+Proof. intros all k b m t0 tw H1 H2. left. congruence. Qed.
+
+Lemma vtrack_set : forall all k b0 bw e t'', vtrack all k b0 bw -> In e all -> et_blob e = k -> t_version t'' = et_newver e ->
+  vtrack all k b0 (set_tracts bw (list_set (N.to_nat (et_idx e)) t'' (b_tracts bw))).
+Proof.
+  intros all k b0 bw e t'' Hv Hin Hk Ht m t0 tw H0 Hw. cbn [set_tracts b_tracts] in Hw.
+  destruct (Nat.eq_dec (N.to_nat (et_idx e)) m) as [<-|Hne].
+  - destruct (nth_error (b_tracts bw) (N.to_nat (et_idx e))) eqn:E.
+    + rewrite nth_error_list_set in Hw by (apply nth_error_Some; congruence). inv Hw. right. exists e. auto.
+    + exfalso. apply nth_error_None in E. assert (nth_error (list_set (N.to_nat (et_idx e)) t'' (b_tracts bw)) (N.to_nat (et_idx e)) <> None) by congruence.
+      apply nth_error_Some in H. rewrite length_list_set in H. lia.
+  - rewrite nth_error_list_set_ne in Hw by auto. eapply Hv; eauto.
+Qed.
 
 Lemma same_shape_refl : forall b, same_shape b b.
 Proof. intros. repeat split; auto. intros. congruence. Qed.
@@ -586,21 +609,43 @@ Proof.
   - rewrite nth_error_list_set_ne in Hw by auto. eapply Hh; eauto.
 Qed.
 
-Lemma commit_loop_upd_ok : forall d cid cls es upd upd', commit_loop d cid cls upd es = CROk upd' -> upd_ok d upd -> upd_ok d upd'.
+Lemma commit_loop_upd_ok : forall all d cid cls es upd upd', commit_loop d cid cls upd es = CROk upd' -> incl es all ->
+  upd_ok all d upd -> upd_ok all d upd'.
 Proof.
-  induction es as [|e es IH]; intros upd upd' H Hk; cbn [commit_loop] in H; [inv H; auto|].
+  induction es as [|e es IH]; intros upd upd' H Hi Hk; cbn [commit_loop] in H; [inv H; auto|].
   destruct (commit_one d cid cls upd e) as [upd1| |] eqn:E; try discriminate.
-  eapply IH; eauto. intros k bw Hin.
+  assert (Hie : In e all) by (apply Hi; now left).
+  eapply IH; eauto; [eapply incl_cons_inv; eauto|]. intros k bw Hin.
   unfold commit_one in E.
   destruct (aget (et_blob e) upd) eqn:E0.
   - destruct (nth_error (b_tracts b) (N.to_nat (et_idx e))) as [t|] eqn:En; [|discriminate].
     repeat break_hyp E; inv E. apply In_aput in Hin. destruct Hin as [[-> ->]|Hin]; [|auto].
-    destruct (Hk _ _ (aget_In _ _ _ E0)) as (b0 & L & Sh). exists b0. split; auto.
-    eapply same_shape_set; eauto. cbn. apply rs_set_hosts.
+    destruct (Hk _ _ (aget_In _ _ _ E0)) as (b0 & L & Sh & Vt). exists b0. split; auto. split.
+    + eapply same_shape_set; eauto. cbn. apply rs_set_hosts.
+    + eapply vtrack_set; eauto.
   - destruct (live_blob d (et_blob e)) eqn:E1; [|discriminate].
     destruct (nth_error (b_tracts b) (N.to_nat (et_idx e))) as [t|] eqn:En; [|discriminate].
     repeat break_hyp E; inv E. apply In_aput in Hin. destruct Hin as [[-> ->]|Hin]; [|auto].
-    eexists; split; [exact E1|]. eapply same_shape_set; eauto; [apply same_shape_refl|]. cbn. apply rs_set_hosts.
+    eexists; split; [exact E1|]. split.
+    + eapply same_shape_set; eauto; [apply same_shape_refl|]. cbn. apply rs_set_hosts.
+    + eapply vtrack_set; eauto. apply vtrack_refl.
+Qed.
+
+Lemma upd_ok_nil : forall all d, upd_ok all d [].
+Proof. intros all d k bw []. Qed.
+
+(* what the version check of the repaired command guarantees *)
+Lemma precheck_ok : forall d es e, commit_precheck d es = None -> In e es -> 2 <= et_newver e ->
+  exists b t, live_blob d (et_blob e) = Some b /\ nth_error (b_tracts b) (N.to_nat (et_idx e)) = Some t
+              /\ et_newver e = t_version t + 1.
+Proof.
+  induction es as [|x es IH]; intros e H Hin Hv; [contradiction|]. cbn [commit_precheck] in H.
+  destruct (et_newver x <? 2) eqn:E2.
+  - destruct Hin as [->|Hin]; [lia|eauto].
+  - destruct (live_blob d (et_blob x)) as [b|] eqn:El; [|discriminate].
+    destruct (nth_error (b_tracts b) (N.to_nat (et_idx x))) as [t|] eqn:En; [|discriminate].
+    destruct (t_version t + 1 =? et_newver x) eqn:Ev; [|discriminate].
+    destruct Hin as [->|Hin]; [|eauto]. apply N.eqb_eq in Ev. eauto.
 Qed.
 
 Lemma fold_aput_get : forall (upd : amap blob) (m : amap blob) k b',
@@ -708,15 +753,22 @@ Proof.
     + intros m t t' H1 H2. left. congruence.
     + intros m t' H1 H2. congruence.
   - unfold do_allocrs in H. repeat break_hyp H; inv H; auto.
-  - unfold do_commit, do_commit_unchecked in H. repeat break_hyp H; try (inv H; auto; fail). inv H.
+  - unfold do_commit in H. destruct (commit_precheck d (concat data)) eqn:Epre; [inv H; auto|].
+    unfold do_commit_unchecked in H. repeat break_hyp H; try (inv H; auto; fail). inv H.
     cbn [set_tsids set_blobs set_chunks d_blobs] in G. apply fold_aput_get in G.
     destruct G as [G|(bw & Hin & ->)]; [auto|].
     match goal with Hc : commit_loop _ _ _ _ _ = CROk _ |- _ =>
-      destruct (commit_loop_upd_ok _ _ _ _ _ _ Hc (fun k bw (F : In (k, bw) []) => match F with end) _ _ Hin) as (b0 & L & Len & Rp & Hh) end.
-    left. exists b0. split; [apply has_live; auto|].
+      destruct (commit_loop_upd_ok (concat data) _ _ _ _ _ _ Hc (incl_refl _) (upd_ok_nil _ _) _ _ Hin) as (b0 & L & (Len & Rp & Hh) & Vt) end.
+    left. exists b0. split; [apply has_live; auto|]. pose proof (Hok _ _ (has_live _ _ _ L)) as Hb0.
     unfold blob_rel. cbn [build_blob b_tracts b_repl]. rewrite map_length.
     split; [lia|]. split; [|split; [|split; [apply build_tracts_ok|split; [|split]]]].
-    + intros m t t' _ _. right. right. do 4 eexists. reflexivity.
+    + intros m t t' H1 H2. apply nth_error_map_inv in H2. destruct H2 as (tw & H2 & ->).
+      destruct (Vt m t tw H1 H2) as [Ev|(e & He & Hk & Hm & Ev)].
+      * left. cbn. rewrite Ev. unfold u32. apply N.mod_small. exact (Forall_nth _ _ _ _ Hb0 H1).
+      * right. right. exists cid, cls, hosts, data, e. repeat split; auto; [cbn; rewrite Ev; reflexivity|].
+        destruct (et_newver e <? 2) eqn:E2; [left; lia|right].
+        destruct (precheck_ok _ _ e Epre He ltac:(lia)) as (b1 & t1 & L1 & N1 & V1).
+        rewrite Hk in L1. rewrite L in L1. injection L1 as <-. rewrite Hm in N1. rewrite H1 in N1. injection N1 as <-. exact V1.
     + intros Hn. rewrite (live_deleted0 _ _ _ L) in Hn. contradiction.
     + intros m t t' H1 H2. apply nth_error_map_inv in H2. destruct H2 as (tw & H2 & ->).
       right. left. cbn. rewrite (Hh _ _ _ H1 H2). reflexivity.
@@ -1030,7 +1082,7 @@ Proof.
     + intros id2 b2 t2 h G Ht Hh. apply set_add_all_In. right. apply fold_aput_get in G.
       destruct G as [G|(bw & Hin & ->)]; [eapply Hb; eauto|].
       match goal with Hcl : commit_loop _ _ _ _ _ = CROk _ |- _ =>
-        destruct (commit_loop_upd_ok _ _ _ _ _ _ Hcl (fun k bw (F : In (k, bw) []) => match F with end) _ _ Hin) as (b0 & L & Len & Rp & Hsame) end.
+        destruct (commit_loop_upd_ok (concat data) _ _ _ _ _ _ Hcl (incl_refl _) (upd_ok_nil _ _) _ _ Hin) as (b0 & L & (Len & Rp & Hsame) & _) end.
       cbn [build_blob b_tracts] in Ht. apply in_map_iff in Ht. destruct Ht as (tw & <- & Htw).
       apply In_nth_error in Htw. destruct Htw as [m Hm].
       destruct (nth_error (b_tracts b0) m) as [t0|] eqn:E0.
